@@ -10,6 +10,7 @@ from tools.vlib import g_bool, g_cmp
 
 
 class C04(C01):
+    points = False
     model_vo = ["theories/Lattice/Het.vo"]
     props_vo = "theories/Props/C04.vo"
     theorems = ["C04_merge_is_join", "C04_join_test_sound", "C04_set", "C04_map", "C04_max_min", "C04_conflict",
